@@ -37,6 +37,7 @@ type cfgSigner struct {
 	signKey  crypto.Signer // remote: the key that actually signs
 	signAlg  string
 	recorded [][]byte
+	scribble bool // remote: overwrite the buffer handed to Sign after signing it (the bytes belong to the signer from then on)
 }
 
 type remoteCfg struct{ *cfgSigner }
@@ -56,6 +57,11 @@ func (c remoteCfg) Sign(payload []byte) ([]byte, []*x509.Certificate, error) {
 	sig, err := signRaw(c.signAlg, c.signKey, payload)
 	if err != nil {
 		sig = bytes.Repeat([]byte{7}, 64)
+	}
+	if c.scribble {
+		for i := range payload {
+			payload[i] = 0xAA
+		}
 	}
 	if c.nilCerts {
 		return sig, nil, nil
@@ -568,7 +574,7 @@ func signChanges() []change {
 	add("signer-chain-error", false, -1, func(r *areq) { r.S.chainErr = true })
 	add("signer-nil-certs", false, -1, func(r *areq) { r.S.nilCerts = true; r.S.local = false })
 	add("signer-empty-certs", false, -1, func(r *areq) { r.S.chain = []*x509.Certificate{} })
-	add("signer-remote", true, -1, func(r *areq) { r.S.local = false })
+	add("signer-remote", true, -1, func(r *areq) { r.S.local = false; r.S.scribble = true })
 	add("signer-local-key-not-signer", false, -1, func(r *areq) { r.S.local = true; r.S.key = notASigner{1} })
 	add("signer-local-wrong-key-type", false, -1, func(r *areq) { r.S.local = true; r.S.key = Key("rsa2048a") })
 	add("signer-local-wrong-curve", false, -1, func(r *areq) { r.S.local = true; r.S.key = Key("ec384") })
@@ -664,6 +670,7 @@ func genSign(prop, tier string, rng *RNG, w *CaseWriter) {
 			// the same change with an external signer and with the other scheme
 			r2 := baseReq(fi)
 			r2.S.local = false
+			r2.S.scribble = true
 			r2.Scheme = "notary.x509.signingAuthority"
 			r2.Labels = []string{"signer-remote", "scheme-sa"}
 			if applyChange(r2, c) {
@@ -700,7 +707,7 @@ func genSign(prop, tier string, rng *RNG, w *CaseWriter) {
 				r := baseReq(fi)
 				ch := basePlan(2, "cs", kn).build().xs
 				ks := trueKeySpec(Key(kn))
-				r.S = &cfgSigner{local: local, ks: ks, chain: ch, key: Key(kn), signKey: Key(kn), signAlg: numJose[int(ks.SignatureAlgorithm())]}
+				r.S = &cfgSigner{local: local, ks: ks, chain: ch, key: Key(kn), signKey: Key(kn), signAlg: numJose[int(ks.SignatureAlgorithm())], scribble: !local}
 				r.Labels = []string{"key=" + kn, fmt.Sprintf("local=%v", local)}
 				r.Attrs = []aattr{{akey{Kind: "text", Text: "com.example.k"}, true, kn}}
 				emitSign(w, r)
